@@ -12,7 +12,7 @@
 
    Variants (finding F60): `fx = false` is the PINNED tree (make_multi_confmaps
    broadcasts every animal over all samples), `fx = true` the repaired variant
-   (proposed_fixes/C01_F60.diff).  Theorems named `_pinned_all_samples` state what
+   (fix f86fea7 = proposed_fixes/C01_F60.diff; the CURRENT tree).  Theorems named `_pinned_all_samples` state what
    the pinned code computes (maximum over the animals of ALL samples); they are
    not the property.  The property is the PER-SAMPLE reading: `_repaired` (no side
    condition), `_partial` (pinned tree, outside the selector
